@@ -258,3 +258,27 @@ def judge(em, model, res, only_roots=None):
         if not any((c["w"] == "drop" or c["w"].endswith("_drop")) and c["root"] == ri and c["nlog"] == 0 for c in res["calls"]):
             viol.append(("C17:no-drop-helper", "no drop helper for %s %s (%s, %s)" % (r["kind"], r["name"], r["inst"], r["ctx"] or "NoContext")))
     return viol, dict(calls=len(res["calls"]), slots=len(allslots), slots_covered=len(allslots & covered), wrappers=len(res["wrappers"]))
+
+
+def helpers_step(chk, pid):
+    """callbacks and iterators as a C user builds them with the helpers of the published header
+    (COLLECT_CB, COLLECT_CB_INTO_ARR, COUNT_CB, BUF_ITER_SPEC), driven the way the Rust side drives them"""
+    binary = tool()
+    n = 0
+    for name, model in [("plugin-api", emit.plugin_api_model())] + [("h%d" % i, emit.random_model(chk.seed * 100 + i)) for i in range(2 if chk.tier == "quick" else 12)]:
+        w = os.path.join(WORK, pid.lower() + "hdr", chk.tier, name)
+        em = emit.emit(model)
+        r = run_tool(binary, w, em.text, config=None)
+        if r["rc"] != 0 or not r["text"]:
+            chk.incon("cglue-bindgen failed on %s: %s" % (name, r["err"][-300:]))
+            continue
+        res = drive(w, em, model, r["out_path"], r["text"])
+        hv, k = res.get("helpers", ([], 0))
+        n += k
+        for sig, d in hv[:2]:
+            chk.violation(pid + ":" + sig, "header of %s: %s" % (name, d), dict(model=name))
+    chk.part("published-header-helpers", helper_cases=n)
+    chk.floor("header helper cases", n, 50)
+    return n
+
+
